@@ -71,7 +71,8 @@ def make_cases(seed, tier):
 def do_chunk(chunk):
     acc = common.Acc()
     w = rt.vw(FL)
-    setup = [rt.obj_line(0), "preerrno 2"]     # a stale errno must not survive a refusal
+    # a stale errno must not survive a refusal, and must not turn a success into one
+    setup = [rt.obj_line(0), "preerrno %d" % rt.stale_errno(int(chunk[0][2]) % 97 + len(chunk))]
     lines = [rt.gensalt_line("rn", gen.TAG[m] if m else None, c, rb, 64, 192) for (m, fm, c, rb) in chunk]
     rows = rt.run_resilient(w, setup, lines)
     follow, fidx = [], []
